@@ -51,6 +51,9 @@ class VLoop(asyncio.SelectorEventLoop):
     def __init__(self, start: float = 0.0) -> None:
         super().__init__()
         self._vt = float(start)
+        # a 'slow host': every loop iteration that finds work ready costs this much virtual time (0 = an infinitely fast host: time only
+        # passes while the loop is idle). Lets a check ask what happens when plain processing - not waiting - outlasts a timeout.
+        self.iter_cost = 0.0
         self.exc_contexts: list[dict] = []
         self.set_exception_handler(self._record_exc)
         orig_select = self._selector.select
@@ -61,6 +64,8 @@ class VLoop(asyncio.SelectorEventLoop):
                 if ev:
                     return ev
                 raise VDeadlock("nothing ready and nothing scheduled")
+            if timeout == 0 and self.iter_cost:
+                self._vt += self.iter_cost
             if timeout > 0:
                 sched = self._scheduled
                 if sched and sched[0]._when - self._vt <= timeout + 1e-9:
@@ -280,10 +285,14 @@ def _cancel_all(loop: VLoop) -> None:
 async def quiesce(limit: int = 10_000) -> None:
     """Yield until the loop has nothing ready at the current virtual instant (clock not advanced)."""
     loop = asyncio.get_running_loop()
-    for _ in range(limit):
-        await asyncio.sleep(0)
-        if not loop._ready:  # type: ignore[attr-defined]
-            return
+    cost, loop.iter_cost = getattr(loop, "iter_cost", 0.0), 0.0  # 'at the current instant': a slow host's per-turn cost is suspended meanwhile
+    try:
+        for _ in range(limit):
+            await asyncio.sleep(0)
+            if not loop._ready:  # type: ignore[attr-defined]
+                return
+    finally:
+        loop.iter_cost = cost
     raise RuntimeError("quiesce: loop never went idle (busy loop at one instant)")
 
 
